@@ -45,3 +45,25 @@ pub open spec fn app_persist_ops(apps: Seq<App>, ops: Seq<StorageOp>) -> bool
             && app_persist_ops(apps.drop_first(), ops.drop_first())
     }
 }
+/// extending the searched prefix by one response: the first match stays, or is the new one, or none
+pub proof fn lemma_first_response_take(id: Seq<char>, rs: Seq<update_check::AppResponse>, j: int)
+    requires 0 <= j < rs.len(), first_response_for(id, rs.take(j)) is None,
+    ensures
+        rs[j].app_id@ == id ==> first_response_for(id, rs) == Some(j),
+        rs[j].app_id@ != id ==> first_response_for(id, rs.take(j + 1)) is None,
+        j + 1 == rs.len() ==> rs.take(j + 1) =~= rs,
+    decreases j
+{
+    if j == 0 {
+        assert(rs.take(1).drop_first() =~= Seq::<update_check::AppResponse>::empty());
+        assert(rs.take(1)[0] == rs[0]);
+        assert(rs.take(0) =~= Seq::<update_check::AppResponse>::empty());
+    } else {
+        assert(rs.drop_first()[j - 1] == rs[j]);
+        assert(rs.take(j)[0] == rs[0]);
+        assert(rs.take(j).drop_first() =~= rs.drop_first().take(j - 1));
+        assert(rs.take(j + 1).drop_first() =~= rs.drop_first().take(j));
+        assert(rs.take(j + 1)[0] == rs[0]);
+        lemma_first_response_take(id, rs.drop_first(), j - 1);
+    }
+}
